@@ -30,6 +30,8 @@ struct State {
     preemptions: u32,
     horizon: usize,
     diverged: Option<String>,
+    /// the scheduler gave up control (a scheduled thread blocked on a lock the scheduler does not model)
+    free_run: bool,
 }
 
 pub struct Sched {
@@ -49,6 +51,7 @@ impl Sched {
                 preemptions: 0,
                 horizon,
                 diverged: None,
+                free_run: false,
             }),
             cv: Condvar::new(),
         }
@@ -79,6 +82,9 @@ impl Sched {
     /// Called by the running thread at a scheduling point.
     pub fn point(&self, tid: usize) {
         let mut g = self.m.lock().unwrap();
+        if g.free_run {
+            return;
+        }
         if g.current != Some(tid) {
             // a thread that is not scheduled reached a point: not under our control
             g.diverged = Some(format!("thread {} reached a scheduling point while {:?} was scheduled", tid, g.current));
@@ -100,7 +106,7 @@ impl Sched {
         if chosen != tid {
             g.current = Some(chosen);
             self.cv.notify_all();
-            while g.current != Some(tid) {
+            while g.current != Some(tid) && !g.free_run {
                 g = self.cv.wait(g).unwrap();
             }
         }
@@ -108,7 +114,7 @@ impl Sched {
 
     fn wait_turn(&self, tid: usize) {
         let mut g = self.m.lock().unwrap();
-        while g.current != Some(tid) {
+        while g.current != Some(tid) && !g.free_run {
             g = self.cv.wait(g).unwrap();
         }
     }
@@ -116,6 +122,10 @@ impl Sched {
     fn finish(&self, tid: usize) {
         let mut g = self.m.lock().unwrap();
         g.finished[tid] = true;
+        if g.free_run {
+            self.cv.notify_all();
+            return;
+        }
         let enabled: Vec<usize> = g.finished.iter().enumerate().filter(|(_, f)| !**f).map(|(i, _)| i).collect();
         if enabled.is_empty() {
             g.current = None;
@@ -134,6 +144,9 @@ pub struct Execution<O> {
     pub outcomes: Vec<O>,
     pub diverged: Option<String>,
     pub deadlock: bool,
+    /// the scheduled thread blocked on a lock held by a descheduled thread; control was released and
+    /// the threads then ran to completion freely: this schedule is infeasible, not a deadlock
+    pub blocked: bool,
 }
 
 pub type Body<O> = Arc<dyn Fn(usize, Arc<Sched>) -> O + Send + Sync>;
@@ -162,14 +175,25 @@ pub fn run_schedule<O: Send + 'static>(n: usize, body: Body<O>, prefix: &[usize]
         g.current = Some(chosen);
         sched.cv.notify_all();
     }
-    // watchdog: all threads must finish
+    // watchdog: all threads must finish. An execution normally takes a few milliseconds; if nothing
+    // finishes for a while the scheduled thread is blocked on a lock our scheduler does not model
+    // (held by a thread we descheduled at a point inside a critical section). Release control and see
+    // whether the threads can finish on their own: yes => infeasible schedule; no => genuine deadlock.
     let mut deadlock = false;
+    let mut blocked = false;
     {
         let mut g = sched.m.lock().unwrap();
-        let deadline = std::time::Instant::now() + Duration::from_secs(20);
+        let mut deadline = std::time::Instant::now() + Duration::from_millis(1500);
         while !g.finished.iter().all(|f| *f) {
             let now = std::time::Instant::now();
             if now >= deadline {
+                if !blocked {
+                    blocked = true;
+                    g.free_run = true;
+                    sched.cv.notify_all();
+                    deadline = std::time::Instant::now() + Duration::from_secs(15);
+                    continue;
+                }
                 deadlock = true;
                 break;
             }
@@ -180,14 +204,14 @@ pub fn run_schedule<O: Send + 'static>(n: usize, body: Body<O>, prefix: &[usize]
     if deadlock {
         // cannot join blocked threads; leak them
         let g = sched.m.lock().unwrap();
-        return Execution { points: g.trace.clone(), outcomes: Vec::new(), diverged: g.diverged.clone(), deadlock: true };
+        return Execution { points: g.trace.clone(), outcomes: Vec::new(), diverged: g.diverged.clone(), deadlock: true, blocked };
     }
     for h in handles {
         let _ = h.join();
     }
     let g = sched.m.lock().unwrap();
     let outcomes: Vec<O> = results.lock().unwrap().iter_mut().map(|o| o.take().expect("thread outcome")).collect();
-    Execution { points: g.trace.clone(), outcomes, diverged: g.diverged.clone(), deadlock: false }
+    Execution { points: g.trace.clone(), outcomes, diverged: g.diverged.clone(), deadlock: false, blocked }
 }
 
 /// Run one schedule in a forked child process, so that every execution starts from the same
@@ -199,11 +223,11 @@ pub fn run_schedule_forked(n: usize, body: Body<String>, prefix: &[usize], horiz
     let mut fds = [0 as libc::c_int; 2];
     unsafe {
         if libc::pipe(fds.as_mut_ptr()) != 0 {
-            return Execution { points: vec![], outcomes: vec![], diverged: Some("pipe() failed".into()), deadlock: false };
+            return Execution { points: vec![], outcomes: vec![], diverged: Some("pipe() failed".into()), deadlock: false, blocked: false };
         }
         let pid = libc::fork();
         if pid < 0 {
-            return Execution { points: vec![], outcomes: vec![], diverged: Some("fork() failed".into()), deadlock: false };
+            return Execution { points: vec![], outcomes: vec![], diverged: Some("fork() failed".into()), deadlock: false, blocked: false };
         }
         if pid == 0 {
             libc::close(fds[0]);
@@ -213,6 +237,7 @@ pub fn run_schedule_forked(n: usize, body: Body<String>, prefix: &[usize], horiz
                 "outcomes": x.outcomes,
                 "diverged": x.diverged,
                 "deadlock": x.deadlock,
+                "blocked": x.blocked,
             });
             let text = doc.to_string();
             let bytes = text.as_bytes();
@@ -235,7 +260,7 @@ pub fn run_schedule_forked(n: usize, body: Body<String>, prefix: &[usize], horiz
         libc::waitpid(pid, &mut status, 0);
         let v: serde_json::Value = serde_json::from_str(&text).unwrap_or(serde_json::Value::Null);
         if v.is_null() {
-            return Execution { points: vec![], outcomes: vec![], diverged: Some(format!("forked execution produced no result (status {})", status)), deadlock: false };
+            return Execution { points: vec![], outcomes: vec![], diverged: Some(format!("forked execution produced no result (status {})", status)), deadlock: false, blocked: false };
         }
         let points = v["points"]
             .as_array()
@@ -255,6 +280,7 @@ pub fn run_schedule_forked(n: usize, body: Body<String>, prefix: &[usize], horiz
             outcomes: v["outcomes"].as_array().map(|a| a.iter().map(|x| x.as_str().unwrap_or("").to_string()).collect()).unwrap_or_default(),
             diverged: v["diverged"].as_str().map(|s| s.to_string()),
             deadlock: v["deadlock"].as_bool().unwrap_or(false),
+            blocked: v["blocked"].as_bool().unwrap_or(false),
         }
     }
 }
@@ -266,7 +292,7 @@ pub fn explore_threads_forked(
     bound: u32,
     horizon: usize,
     max_schedules: u64,
-    check: &mut dyn FnMut(&[usize], &Execution<String>),
+    check: &mut dyn FnMut(&[usize], &Execution<String>) -> bool,
 ) -> ExploreStats {
     let mut stats = ExploreStats::default();
     let mut stack: Vec<Vec<usize>> = vec![vec![]];
@@ -279,8 +305,10 @@ pub fn explore_threads_forked(
         stats.schedules += 1;
         stats.max_points = stats.max_points.max(x.points.len());
         let choices: Vec<usize> = x.points.iter().map(|p| p.chosen).collect();
-        check(&choices, &x);
-        if x.deadlock || x.diverged.is_some() {
+        if !check(&choices, &x) {
+            break;
+        }
+        if x.deadlock || x.blocked || x.diverged.is_some() {
             continue;
         }
         for i in prefix.len()..x.points.len() {
@@ -314,7 +342,7 @@ pub fn explore_threads<O: Send + 'static>(
     bound: u32,
     horizon: usize,
     max_schedules: u64,
-    check: &mut dyn FnMut(&[usize], &Execution<O>),
+    check: &mut dyn FnMut(&[usize], &Execution<O>) -> bool,
 ) -> ExploreStats {
     let mut stats = ExploreStats::default();
     let mut stack: Vec<Vec<usize>> = vec![vec![]];
@@ -327,8 +355,10 @@ pub fn explore_threads<O: Send + 'static>(
         stats.schedules += 1;
         stats.max_points = stats.max_points.max(x.points.len());
         let choices: Vec<usize> = x.points.iter().map(|p| p.chosen).collect();
-        check(&choices, &x);
-        if x.deadlock {
+        if !check(&choices, &x) {
+            break;
+        }
+        if x.deadlock || x.blocked {
             continue;
         }
         for i in prefix.len()..x.points.len() {
